@@ -11,6 +11,12 @@
 //	  spec: `-` (no headers) or comma-separated entries  key=v1;v2  (http.Header.Add per value) or
 //	        ~key=v1;v2 (raw map assignment, the key is NOT canonicalised by the propagator)
 //
+//	seq <maxBatch> | <a|b|s|t>:<spec> | ...   ONE client (coalescing on), ONE goroutine pinned to its OS
+//	  thread, the steps in order: a / s = RemoteAsk (10 s / 5 s timeout), b = RemoteBatchAsk of 2,
+//	  t = coalesced RemoteTell.
+//	  Consecutive calls of different kinds with different (shrinking) key sets: nothing of an earlier
+//	  call's headers may show up in a later message.  Output: one token per step  i.0[...]
+//
 // output: one token per message  i.j[K=v,K2=v2]  (keys sorted), sorted by caller and message;
 // for ask/bask the reply must carry the same headers and (bask) arrive in request order, else the
 // token is suffixed with !reply
@@ -20,6 +26,7 @@ import (
 	"context"
 	"fmt"
 	"net/http"
+	"runtime"
 	"sort"
 	"strconv"
 	"strings"
@@ -165,12 +172,110 @@ func parseSpec(s string) ([]entry, bool) {
 	return es, true
 }
 
+// handleSeq: mixed request-level and per-message calls, one after the other, on one client.
+func handleSeq(parts []string, f []string) string {
+	mb, err := strconv.Atoi(f[1])
+	if err != nil || mb < 1 || len(parts) < 2 || len(parts) > 40 {
+		return "bad-case"
+	}
+	type step struct {
+		kind byte
+		es   []entry
+	}
+	var steps []step
+	for _, p := range parts[1:] {
+		p = strings.TrimSpace(p)
+		if len(p) < 2 || p[1] != ':' || !strings.ContainsRune("abst", rune(p[0])) {
+			return "bad-case"
+		}
+		es, ok := parseSpec(p[2:])
+		if !ok {
+			return "bad-case"
+		}
+		steps = append(steps, step{p[0], es})
+	}
+	caseNo++
+	cl := remoteclient.NewClient(remoteclient.WithClientContextPropagator(recorder{}), remoteclient.WithSendCoalescing(mb))
+	defer cl.Close()
+	from := address.NoSender()
+	id := func(i int, ask bool) string {
+		if ask {
+			return fmt.Sprintf("%dA%d.0", caseNo, i)
+		}
+		return fmt.Sprintf("%dT%d.0", caseNo, i)
+	}
+	ids := make([]string, len(steps))
+	errc := make(chan string, 1)
+	go func() {
+		// sync.Pool caches are per P: stay on one thread so that a pooled object put by one call is
+		// the one the next call gets
+		runtime.LockOSThread()
+		defer runtime.UnlockOSThread()
+		for i, st := range steps {
+			ctx := context.WithValue(context.Background(), sendKey{}, st.es)
+			var err error
+			switch st.kind {
+			case 't':
+				ids[i] = id(i, false)
+				err = cl.RemoteTell(ctx, from, sinkAddr, wrapperspb.String(ids[i]))
+			case 'a':
+				ids[i] = id(i, true)
+				_, err = cl.RemoteAsk(ctx, from, sinkAddr, wrapperspb.String(ids[i]), 10*time.Second)
+			case 's':
+				ids[i] = id(i, true)
+				_, err = cl.RemoteAsk(ctx, from, sinkAddr, wrapperspb.String(ids[i]), 5*time.Second)
+			case 'b':
+				ids[i] = id(i, true)
+				_, err = cl.RemoteBatchAsk(ctx, from, sinkAddr, []any{wrapperspb.String(ids[i]), wrapperspb.String(ids[i] + "x")}, 10*time.Second)
+			}
+			if err != nil {
+				errc <- err.Error()
+				return
+			}
+		}
+		errc <- ""
+	}()
+	if e := <-errc; e != "" {
+		return "SEND-ERROR " + vlib.Canon(e)
+	}
+	deadline := time.Now().Add(15 * time.Second)
+	for {
+		theSink.mu.Lock()
+		n := 0
+		for _, k := range ids {
+			if _, ok := theSink.seen[k]; ok {
+				n++
+			}
+		}
+		theSink.mu.Unlock()
+		if n == len(ids) {
+			break
+		}
+		if time.Now().After(deadline) {
+			return fmt.Sprintf("MISSING %d of %d", len(ids)-n, len(ids))
+		}
+		time.Sleep(2 * time.Millisecond)
+	}
+	var out []string
+	theSink.mu.Lock()
+	for i, k := range ids {
+		out = append(out, fmt.Sprintf("%d.0[%s]", i, theSink.seen[k]))
+		delete(theSink.seen, k)
+		delete(theSink.seen, k+"x")
+	}
+	theSink.mu.Unlock()
+	return strings.Join(out, " ")
+}
+
 func handle(line string) string {
 	if sysErr != "" {
 		return "system-error " + sysErr
 	}
 	parts := strings.Split(line, "|")
 	f := vlib.Fields(parts[0])
+	if len(f) == 2 && f[0] == "seq" {
+		return handleSeq(parts, f)
+	}
 	if len(f) != 4 || f[0] != "prop" || len(parts) < 2 {
 		return "bad-case"
 	}
